@@ -132,14 +132,22 @@ theorem pending_bounded (hh : Honest dev) (p : Profile) (s : St σ) (a n : Nat) 
     (hid : s.h.nextReqId < 2 ^ 16) :
     (∃ evs, (Control.read dev p s a n).1.logRev = evs ++ s.logRev ∧
       recvCount evs ≤ s.h.cfg.retry * sendCount evs ∧
-      EvsOk s.h.cfg.maxCmd s.h.cfg.timeoutMs evs) ∧
+      EvsOk s.h.cfg.maxCmd s.h.cfg.xfer evs) ∧
     (∃ evs, (Control.write dev p s a data).1.logRev = evs ++ s.logRev ∧
       recvCount evs ≤ s.h.cfg.retry * sendCount evs ∧
-      EvsOk s.h.cfg.maxCmd s.h.cfg.timeoutMs evs) ∧
+      EvsOk s.h.cfg.maxCmd s.h.cfg.xfer evs) ∧
     (∃ evs, (Control.open dev p s).1.logRev = evs ++ s.logRev ∧
       recvCount evs ≤ s.h.cfg.retry * sendCount evs) :=
   ⟨(read_inv hh p s a n hn).1.log, (write_inv hh p s a data hd hu32 hid).1.log,
     (open_inv hh p s).2.2.2.1⟩
+
+/-- **no unlimited transfer**: the timeout handed to every transfer (`Config.xfer`, the `t` of
+`EvsOk` in `pending_bounded`) is at least 1 ms whatever the configuration holds — in particular
+for a device advertising a Maximum Device Response Time of 0, which libusb would read as
+"wait forever".  (That each transport call then RETURNS is an assumption on the transport, see
+`props/C07.json`.) -/
+theorem transfer_timeout_never_zero (c : Config) : 1 ≤ c.xfer ∧ c.timeoutMs ≤ c.xfer := by
+  simp only [Config.xfer]; omega
 
 /-! ## 4. usable_after_error -/
 
